@@ -48,8 +48,10 @@ class FaultyWorld(world.World):
                 q = P.parse(msg)
                 if q["qd"]:
                     self.stats["servfail"] = self.stats.get("servfail", 0) + 1
-                    self.down.append((self.ms + 1 + (self.rng.randrange(self.f_delay) if self.f_delay else 0),
-                                      P.header(q["id"], 0x8182, 1, 0) + P.question(q["qd"][0][0], q["qd"][0][1])))
+                    self.nlog("unmappable the resolver answered a query SERVFAIL itself")
+                    self.n_up += 1
+                    self.down.append(self._entry(self.ms + 1 + (self.rng.randrange(self.f_delay) if self.f_delay else 0),
+                                                 P.header(q["id"], 0x8182, 1, 0) + P.question(q["qd"][0][0], q["qd"][0][1]), -1))
                     return
             except P.Malformed:
                 pass
@@ -95,8 +97,8 @@ def one_world(args):
     relay = world.Relay(rng=rng, **relay_kw)
     w = FaultyWorld(rng, srv, cli, relay=relay, real_z=real_z, qtype=cfg["qtype"], downenc=cfg["downenc"], lazy=cfg["lazy"], maxlen=cfg["maxlen"],
                     seltimeout=cfg["seltimeout"], raw_mode=cfg["raw_mode"], autofrag=cfg["autofrag"], fragsize=cfg["fragsize"],
-                    drop=0, dup=0, delay=0)
-    out = {"seed": seed, "cfg": cfg, "relay": relay.describe(), "fault": fault, "scenario": scenario}
+                    drop=0, dup=0, delay=0, model_clock=bool(cfg.get("model_clock")))
+    out = {"seed": seed, "cfg": cfg, "relay": relay.describe(), "fault": fault, "scenario": scenario, "model_clock": bool(cfg.get("model_clock"))}
     hs = w.handshake(400000)
     out["handshake"] = hs
     out["negotiated"] = {k: w.c_state.get(k) for k in ("qt", "enc", "dn", "lazy", "e0", "conn")}
@@ -401,6 +403,380 @@ def report_server_model(chk, res, prop):
                       ["# correspondence Server.iteration vs iodined.c tunnel() no longer checks; server ops up to the first difference:"] + r["sops"][:i + 1], no_input=True)
 
 
+# ---------------------------------------------------------------------------------------------------------------------------------
+# Tie of the JOINED model: `Iodine.World.step` (lean/IodineModel/World.lean) against the real client + real server pair.
+#
+# A world run made with `model_clock=True` (checks/world.py) is a schedule of `World.Ev`: the log holds, besides both sides' ops, every
+# decision of the scheduler / network as ("N", …).  `world_model_plan` turns the log into driver ops (Drv/World.lean): both component models are
+# brought to the state after the handshake by the recorded ops (`S <op>` / `C <op>`), `wstart` joins them, then ONE `wev <Ev>` per
+# event; `world_model_diff` compares, after every event, what the model says with what the real programs did:
+#   * the datagram the real network delivered IS the head of the model's queue, as the RECEIVER decoded it: upstream the server's `dq`
+#     (id, type, name) / the raw bytes; downstream the client's `rq` (what read_dns_withq returned: rv, id, type, rcode, name[0], bytes) —
+#     this is the check of `srvInput`/`cliInput`, i.e. of the hop-lossless abstraction;
+#   * the datagrams the step put in flight are the ones the real side sent, in order, as the SENDER describes them (client: `query` =
+#     its datagram decoded by dns_decode / `rawtx`; server: the `write_dns` hook's `ans` / `raw`) — `upOfEvents`, `downOfEvents`;
+#   * frames written to either tun device; the select the side is parked in; BOTH full state digests (the formats of the component ties).
+# The model's queues are mirrored here by serial numbers: a datagram delivered out of turn is brought to the head by `reorderUp/Down`
+# (rotations), a lost one by rotations + `dropUp/Down`, a duplicated one is `dupUp/Down` for all but its last copy.
+
+def _real_ups(events):
+    """datagrams a client line sent, as abstract items (in order)"""
+    out, pend = [], None
+    for e in events:
+        if e[0] == "tx":
+            pend = e
+        elif e[0] == "query":
+            out.append("q %s %s %s" % (e[1], e[2], e[3])); pend = None
+        elif e[0] == "rawtx":
+            out.append("rawf %s" % e[1])
+    return out
+
+
+def _real_downs(events):
+    """datagrams a server line sent towards the client (world.route_down's filter), as abstract items"""
+    out, last_ans = [], None
+    pref = world.CLIENT_ADDR.rsplit(":", 1)[0]
+    for e in events:
+        if e[0] == "ans":
+            last_ans = e
+        elif e[0] == "tx":
+            if e[1] == world.CLIENT_ADDR or e[1].startswith(pref):
+                a = last_ans
+                out.append("ans %s %s %s %s" % (a[2], a[3], a[5], a[6]) if a is not None and a[1] == e[1] else "tx-without-ans %s" % e[2])
+            last_ans = None
+        elif e[0] == "raw":
+            if e[1] == world.CLIENT_ADDR or e[1].startswith(pref):
+                out.append("raw %s" % e[2])
+    return out
+
+
+def world_model_plan(r):
+    """-> (driver ops, expectations aligned with them, note).  An expectation is None (nothing to compare) or a dict
+    {ev, side, line (the real answer line), op (the real op), touched (expected head item | None)}"""
+    log = [l.split(" ", 1) for l in r["log"]]
+    cops, clines, sops, slines = r["cops"], r["clines"], r["sops"], r["slines"]
+    mo = client_model_ops(cops, clines)
+    if not mo or any(o.startswith("cset") for o in mo[0]):
+        return None
+    cmops = mo[0]
+    ops, exp = [], []
+    ci = si = 0
+    started = False
+    note = None
+    mq = {"up": [], "down": []}            # the model's queues, as serial numbers
+    copies = {"up": {}, "down": {}}        # copies of a serial still to be delivered by the real network
+    item = {"up": {}, "down": {}}          # serial -> abstract item
+    pend = {"up": [], "down": []}          # items the last op of the sending side produced, not yet handed to the network
+    head_of = {"up": "Up", "down": "Down"}
+
+    def emit(op, e=None):
+        ops.append(op); exp.append(e)
+
+    def to_head(d, s):
+        """rotate the model's queue until serial s is its head"""
+        k = mq[d].index(s)
+        for _ in range(k):
+            emit("wev reorder" + head_of[d])
+        mq[d][:] = mq[d][k:] + mq[d][:k]
+
+    lost = []
+
+    def flush_lost():
+        for d, s_ in lost:
+            if started:
+                to_head(d, s_)
+                emit("wev drop" + head_of[d], {"ev": "drop" + head_of[d], "side": None, "touched": item[d][s_] if d == "up" else None})
+                mq[d].pop(0)
+            else:
+                mq[d].remove(s_)
+        del lost[:]
+
+    i = 0
+    while i < len(log):
+        side, op = log[i]
+        i += 1
+        t = op.split()
+        if lost and not (side == "N" and t[0] in ("up", "down")):
+            flush_lost()
+        if side == "S":
+            if si >= len(slines) or sops[si] != op:
+                note = "log and server ops out of step"; break
+            line = slines[si]; si += 1
+            if not started:
+                emit("S " + op)
+                ev = world.srvgen.parse_line(line)[0]
+                pend["down"] = _real_downs(ev)
+                continue
+            if t[0] == "time":
+                continue
+            ev, sel, slots = world.srvgen.parse_line(line)
+            pend["down"] = _real_downs(ev)
+            if t[0] == "dns":
+                if not exp or ops[-1] not in ("wev deliverUp", "wev dupUp") or exp[-1] is not None:
+                    note = "server datagram without a network decision"; break
+                exp[-1] = {"ev": ops[-1][4:], "side": "S", "line": line, "op": op}
+            elif t[0] == "tick":
+                if not ops or ops[-1] != "wev tickS" or exp[-1] is not None:
+                    note = "server tick without a scheduler decision"; break
+                exp[-1] = {"ev": "tickS", "side": "S", "line": line, "op": op}
+            elif t[0] == "tun":
+                skipped = any(e[0] == "tunskip" for e in ev)
+                if skipped and sel.get("to") == 20000:
+                    # h_srv: a frame offered while tun_fd is not selected makes select() return 0 at once: one iteration with nothing readable and no
+                    # time consumed = `tickS` of a 20 ms select
+                    emit("wev tickS", {"ev": "tickS", "side": "S", "line": line, "op": op, "tunskip": True})
+                else:
+                    emit("wev offerS " + t[1], {"ev": "offerS", "side": "S", "line": line, "op": op, "tunskip": skipped})
+            else:
+                note = "server op not mapped: " + t[0]; break
+        elif side == "C":
+            if ci >= len(clines) or cops[ci] != op or ci >= len(cmops):
+                note = "log and client ops out of step"; break
+            line = clines[ci]; mop = cmops[ci]; ci += 1
+            ev = world.parse_cli(line)[0] if line != "ok" else []
+            if not started:
+                emit("C " + mop)
+                pend["up"] = _real_ups(ev)
+                if t[:2] == ["start", "tunnel"]:
+                    started = True
+                    emit("wstart")
+                    for d in ("up", "down"):
+                        if mq[d]:
+                            # still in flight from the handshake: put them into the joined state as they are (set-up, not a step)
+                            for s_ in mq[d]:
+                                emit("wput %s %s" % (d, item[d][s_]))
+                continue
+            if t[0] == "ctime":
+                continue
+            pend["up"] = _real_ups(ev)
+            if t[0] == "ans":
+                if not ops or ops[-1] not in ("wev deliverDown", "wev dupDown") or exp[-1] is not None:
+                    note = "client datagram without a network decision"; break
+                exp[-1] = {"ev": ops[-1][4:], "side": "C", "line": line, "op": op}
+            elif t[0] == "tick":
+                if not ops or ops[-1] != "wev tickC" or exp[-1] is not None:
+                    note = "client tick without a scheduler decision"; break
+                exp[-1] = {"ev": "tickC", "side": "C", "line": line, "op": op}
+            elif t[0] == "tun":
+                emit("wev offerC " + t[1], {"ev": "offerC", "side": "C", "line": line, "op": op})
+            else:
+                note = "client op not mapped: " + " ".join(t[:2]); break
+        else:       # "N": a decision of the scheduler / the network
+            if t[0] in ("up", "down"):
+                d, s_, k = t[0], int(t[1]), int(t[2])
+                if not pend[d]:
+                    note = "a datagram was handed to the network that no event announced"; break
+                item[d][s_] = pend[d].pop(0)
+                mq[d].append(s_); copies[d][s_] = k
+                if k == 0:
+                    lost.append((d, s_))        # dropped once everything the step sent is in the queue (the model appends all of it at once)
+            elif t[0] in ("deliverUp", "deliverDown", "lostDown", "relaydrop"):
+                if t[0] == "relaydrop":
+                    d, s_, kind = t[1], int(t[2]), "drop"
+                else:
+                    d, s_, kind = ("up" if t[0] == "deliverUp" else "down"), int(t[1]), ("drop" if t[0] == "lostDown" else "deliver")
+                if s_ not in mq[d]:
+                    note = "delivery of a datagram the model does not have in flight (serial %d %s)" % (s_, d); break
+                copies[d][s_] -= 1
+                if not started:
+                    if copies[d][s_] <= 0:
+                        mq[d].remove(s_)
+                    continue
+                to_head(d, s_)
+                if kind == "drop":
+                    if copies[d][s_] <= 0:
+                        emit("wev drop" + head_of[d], {"ev": "drop" + head_of[d], "side": None, "touched": item[d][s_] if d == "up" else None})
+                        mq[d].pop(0)
+                elif copies[d][s_] > 0:
+                    emit("wev dup" + head_of[d])
+                else:
+                    emit("wev deliver" + head_of[d])
+                    mq[d].pop(0)
+            elif t[0] == "advance":
+                if started:
+                    emit("wev advance " + t[1], {"ev": "advance", "side": None})
+            elif t[0] in ("tickC", "tickS"):
+                if started:
+                    emit("wev " + t[0])
+            elif t[0] == "unmappable":
+                note = "not expressible as a World schedule: " + " ".join(t[1:]); break
+            else:
+                note = "unknown network log entry " + op; break
+    if note is None:
+        flush_lost()
+    return ops, exp, note
+
+
+def _cmp_step(e, m):
+    """compare one `wev` answer line `m` of the model with the real side's line; -> None | (what, real, model)"""
+    sec = m.split(" || ")
+    if len(sec) != 5:
+        return ("answer line of the model", e.get("line", "")[:300], m[:300])
+    head, prod, ssec, csec, nx = sec
+    hw = head.split(" ", 1)
+    touched = hw[1] if len(hw) > 1 else "-"
+    if hw[0].split(" ")[0] != e["ev"]:
+        return ("event", e["ev"], head)
+    if e["side"] is None:
+        if e.get("touched") is not None and touched != e["touched"]:
+            return ("the datagram the network lost is not the head of the model's queue", e["touched"], touched)
+        return None
+    items = [] if prod == "-" else prod.split(" | ")
+    if e["side"] == "S":
+        ev, sel, slots = world.srvgen.parse_line(e["line"])
+        if e["ev"] in ("deliverUp", "dupUp"):
+            dq = next((x for x in ev if x[0] == "dq"), None)
+            hexd = e["op"].split()[2]
+            real = ("q %s %s %s" % (dq[2], dq[3], dq[4]) if int(dq[1]) > 0 else "undecodable (dq %s)" % dq[1]) if dq is not None else "rawf " + hexd
+            if real != touched:
+                return ("upstream hop: what the server decoded from the delivered datagram vs the head of the model's queue (World.srvInput)", real, touched)
+        real_items = ["down " + x for x in _real_downs(ev)] + ["tunS " + x[1] for x in ev if x[0] == "tunw"]
+        model_items = [x for x in items if x.startswith("down ")] + [x for x in items if x.startswith("tunS ")]
+        if [x for x in items if not (x.startswith("down ") or x.startswith("tunS "))]:
+            return ("a server step appended something else than answers / server tun writes", "-", prod[:300])
+        if real_items != model_items:
+            k = next((j for j, (a, b) in enumerate(zip(real_items, model_items)) if a != b), min(len(real_items), len(model_items)))
+            return ("datagrams sent downstream / frames written to the server's tun device (World.downOfEvents, tunOfSEvents): %d real, %d model, first difference at %d"
+                    % (len(real_items), len(model_items), k), (real_items[k] if k < len(real_items) else "<none>")[:400], (model_items[k] if k < len(model_items) else "<none>")[:400])
+        real_tail = e["line"][e["line"].index("to="):] if "to=" in e["line"] else e["line"]
+        real_tail = " | ".join(p.strip() for p in real_tail.split(" | "))
+        if ssec != "S " + real_tail:
+            return ("server select + state digest", real_tail, ssec[2:])
+    else:
+        ev, sel, st = world.parse_cli(e["line"])
+        if e["ev"] in ("deliverDown", "dupDown"):
+            rq = next((x for x in ev if x[0] == "rq"), None)
+            if rq is not None:
+                real = " ".join(rq)
+                if real != touched:
+                    return ("downstream hop: what read_dns_withq made of the delivered datagram vs what the model feeds its client (World.cliInput)", real[:400], touched[:400])
+            elif touched.startswith("rawans "):
+                if touched != "rawans " + e["op"].split()[1]:
+                    return ("downstream hop (raw mode): the delivered datagram vs the head of the model's queue", e["op"][:400], touched[:400])
+        real_items = ["up " + x for x in _real_ups(ev)] + ["tunC " + x[1] for x in ev if x[0] == "tunw"]
+        model_items = [x for x in items if x.startswith("up ")] + [x for x in items if x.startswith("tunC ")]
+        if [x for x in items if not (x.startswith("up ") or x.startswith("tunC "))]:
+            return ("a client step appended something else than queries / client tun writes", "-", prod[:300])
+        if real_items != model_items:
+            k = next((j for j, (a, b) in enumerate(zip(real_items, model_items)) if a != b), min(len(real_items), len(model_items)))
+            return ("datagrams sent upstream / frames written to the client's tun device (World.upOfEvents, tunOfCEvents): %d real, %d model, first difference at %d"
+                    % (len(real_items), len(model_items), k), (real_items[k] if k < len(real_items) else "<none>")[:400], (model_items[k] if k < len(model_items) else "<none>")[:400])
+        parts = [p.strip() for p in e["line"].split(" | ")]
+        real_tail = " | ".join(parts[-2:])
+        if csec != "C " + real_tail:
+            return ("client select + state digest", real_tail, csec[2:])
+    return None
+
+
+PROMPT_SCENARIOS = ("clean", "uponly", "downonly", "idle")
+
+
+def world_model_diff(chk, res):
+    """-> dict of totals, or None (no driver)"""
+    drv = chk.driver()
+    if drv is None:
+        return None
+    tot = {"worlds": 0, "worlds_fully_mapped": 0, "events": 0, "compared": 0, "diffs": 0, "first": None, "by_event": {}, "unmapped": {},
+           "hop_up_checked": 0, "hop_down_checked": 0, "inflight_at_start": 0, "kinds": {}, "samples": [],
+           "prompt": {"steps_while_not_quiet": 0, "as_prompt_schedule": 0, "advance_while_not_quiet": 0, "other": {}, "steps_while_quiet": {}}}
+    for r in res:
+        if not r.get("model_clock") or r.get("real_z") or r.get("dead") or r.get("handshake") != ("ret", 0):
+            continue
+        plan = world_model_plan(r)
+        if plan is None:
+            tot["unmapped"]["client ops not modelled from the first op"] = tot["unmapped"].get("client ops not modelled from the first op", 0) + 1
+            continue
+        ops, exp, note = plan
+        tot["worlds"] += 1
+        if note:
+            key = note.split(" (serial")[0][:90]
+            tot["unmapped"][key] = tot["unmapped"].get(key, 0) + 1
+        else:
+            tot["worlds_fully_mapped"] += 1
+        tot["inflight_at_start"] += sum(1 for o in ops if o.startswith("wput "))
+        m = vlib.run_lines(drv, ops)
+        prev_nx = None
+        for j, (o, e) in enumerate(zip(ops, exp)):
+            if not o.startswith("wev ") and o != "wstart":
+                continue
+            b = m.lines[j] if j < len(m.lines) else "<no-answer>"
+            sec = b.split(" || ")
+            if o == "wstart":
+                prev_nx = sec[-1] if len(sec) == 4 else None
+                if len(sec) != 4:
+                    tot["diffs"] += 1
+                    tot["first"] = tot["first"] or (r["seed"], j, o, "wstart", "ok …", b[:300], ops[:j + 1])
+                    break
+                continue
+            evname = o.split()[1]
+            tot["events"] += 1
+            tot["by_event"][evname] = tot["by_event"].get(evname, 0) + 1
+            # is the real pair's schedule the prompt schedule the theorems quantify over?
+            if prev_nx is not None and r.get("scenario") in PROMPT_SCENARIOS and not r.get("fault"):
+                f = dict(x.split("=", 1) for x in prev_nx.split()[1:] if "=" in x)
+                pr = tot["prompt"]
+                if f.get("quiet") == "0":
+                    if evname == "advance":
+                        pr["advance_while_not_quiet"] += 1
+                    else:
+                        pr["steps_while_not_quiet"] += 1
+                        if f.get("pev") == evname:
+                            pr["as_prompt_schedule"] += 1
+                        else:
+                            k = "model %s / real %s" % (f.get("pev"), evname)
+                            pr["other"][k] = pr["other"].get(k, 0) + 1
+                else:
+                    pr["steps_while_quiet"][evname] = pr["steps_while_quiet"].get(evname, 0) + 1
+            d = None
+            if len(sec) != 5:
+                d = ("answer line of the model", "", b[:300])
+            elif e is not None:
+                tot["compared"] += 1
+                d = _cmp_step(e, b)
+                if d is None and e["ev"] in ("deliverUp", "dupUp"):
+                    tot["hop_up_checked"] += 1
+                if d is None and e["ev"] in ("deliverDown", "dupDown") and (" rq " in " " + e["line"] or sec[0].split(" ", 2)[1:2] == ["rawans"]):
+                    tot["hop_down_checked"] += 1
+            if d is not None:
+                tot["diffs"] += 1
+                k = "%s: %s" % (evname, d[0].split(":")[0][:80])
+                tot["kinds"][k] = tot["kinds"].get(k, 0) + 1
+                if len(tot["samples"]) < 12:
+                    tot["samples"].append({"seed": r["seed"], "scenario": r.get("scenario"), "op": j, "ev": o[:120], "what": d[0], "real": d[1][:700], "model": d[2][:700]})
+                if tot["first"] is None:
+                    tot["first"] = (r["seed"], j, o[:200], d[0], d[1], d[2], ops[:j + 1])
+                break           # after the first difference the two runs are no longer comparable
+            prev_nx = sec[-1]
+    return tot
+
+
+def report_world_model(chk, res, prop):
+    t = world_model_diff(chk, res)
+    if t is None:
+        chk.notes["world_model_events_compared"] = None
+        chk.notes["world_model_diffs"] = None
+        if not chk.violations:
+            chk.violation("model driver does not build", ["# lake build iodmodel failed"], no_input=True)
+        return
+    chk.notes["world_model_worlds"] = t["worlds"]
+    chk.notes["world_model_worlds_fully_mapped"] = t["worlds_fully_mapped"]
+    chk.notes["world_model_events"] = t["events"]
+    chk.notes["world_model_events_compared"] = t["compared"]
+    chk.notes["world_model_diffs"] = t["diffs"]
+    chk.notes["world_model_by_event"] = t["by_event"]
+    chk.notes["world_model_hops_checked"] = {"up": t["hop_up_checked"], "down": t["hop_down_checked"]}
+    chk.notes["world_model_inflight_at_start"] = t["inflight_at_start"]
+    chk.notes["world_model_unmapped"] = t["unmapped"]
+    chk.notes["world_model_diff_kinds"] = t["kinds"]
+    chk.notes["world_model_diff_samples"] = t["samples"]
+    chk.notes["world_model_prompt_schedule"] = t["prompt"]
+    if t["first"] is not None and not chk.violations:
+        seed, j, o, what, a, b, pre = t["first"]
+        chk.violation("correspondence broken (World.step vs the real pair): the joined model and the real client + server differ in %d world run(s); first: world seed %d, driver op %d `%s`: %s; the oracle found no violation of %s.\n real:  %s\n model: %s"
+                      % (t["diffs"], seed, j, o, what, prop, a[:600], b[:600]),
+                      ["# correspondence World.step vs real client + real server no longer checks; driver ops up to the first difference:"] + pre, no_input=True)
+
+
 def report_rseq(chk, prop):
     """recent_seqno (common.c), used by both reassemblers: exhaustive differential over -12..24 x -12..24 against both models' copies"""
     drv = chk.driver()
@@ -464,7 +840,7 @@ def replay_world(path):
     cli = world.CliProc(vlib.build_cli())
     for l in open(path):
         l = l.rstrip("\n")
-        if not l or l.startswith("#"):
+        if not l or l.startswith("#") or l.startswith("N "):
             continue
         side, op = l.split(" ", 1)
         if side == "S":
